@@ -151,6 +151,9 @@ def drive(run, driver, cases_path, out_prefix, args, nshards=NPROC, timeout=3600
         outs.append(out)
         cmd = [PY, os.path.join(HERE, driver), '--cases', cases_path, '--out', out,
                '--shard', '%d/%d' % (k, nshards)] + args
+        if os.environ.get('VERIF_COVERAGE'):      # development: which lines of asn1tools do the generated behaviours reach?
+            cmd = [PY, '-m', 'coverage', 'run', '-p', '--data-file', os.path.join(os.environ['VERIF_COVERAGE'], '.coverage'),
+                   '--source', os.path.join(REPO, 'asn1tools')] + cmd[1:]
         procs.append(subprocess.Popen(cmd, env=env, stdout=subprocess.PIPE, stderr=subprocess.STDOUT, text=True))
     deadline = time.time() + timeout
     for p in procs:
